@@ -159,6 +159,17 @@ func (fc *FuncCtx) resolveType(te TypeExpr, pkg *types.Package) types.Type {
 	if name == "mathint" {
 		return types.Typ[types.UntypedInt]
 	}
+	if name == "Self" {
+		// the (struct) type of the receiver of the function being verified
+		if recv := fc.Fn.Signature.Recv(); recv != nil {
+			t := recv.Type()
+			if p, ok := t.Underlying().(*types.Pointer); ok {
+				t = p.Elem()
+			}
+			return t
+		}
+		specFail("Self used in a function without receiver")
+	}
 	if o := types.Universe.Lookup(name); o != nil {
 		if tn, ok := o.(*types.TypeName); ok {
 			return tn.Type()
